@@ -283,7 +283,9 @@ class Extractor:
                     # `if let Some(x) = ..` / match on Option: presence-conditional
                     out.append(Tok("ALT", cond=("opaque", "present:" + re.sub(r"\bself\.", "", hirq.render(n["e"]))[:40]), arms=[nonempty[0], []], ln=n["ln"]))
                 else:
-                    out.append(Tok("ALT", cond=("match", re.sub(r"\bself\.", "", hirq.render(n["e"]))[:40]), arms=arms, ln=n["ln"]))
+                    t_ = Tok("ALT", cond=("match", re.sub(r"\bself\.", "", hirq.render(n["e"]))[:40]), arms=arms, ln=n["ln"])
+                    t_.name = [(hirq.pat_ctor(a["pat"]) or hirq.render_pat(a["pat"])).split("::")[-1] for a in n["arms"]]
+                    out.append(t_)
             return out
         if k == "for":
             out = self.emit(n["iter"])
